@@ -578,6 +578,12 @@ func main() {
 	if r.Replay != "" {
 		var sc scase
 		r.LoadReplay(&sc)
+		if isLeg4(sc.Leg) { // a case of legs4.go (normal tiers)
+			r.Case()
+			runNaN(sc).report(r, sc)
+			r.Sample(sc)
+			return
+		}
 		if isLeg3(sc.Leg) { // a case of legs3.go (normal tiers)
 			r.Case()
 			runLeg3(sc).report(r, sc)
@@ -619,6 +625,8 @@ func main() {
 	}
 	// key / value types, re-entrant callbacks, word-size arguments, held listings (legs3.go; oracle-only)
 	typeLegs(r)
+	// keys that are not equal to themselves (legs4.go; oracle-only)
+	nanLegs(r)
 	if r.Search {
 		if r.Failed() {
 			r.Note("search legs not run: the thorough generators already produced a failing input")
